@@ -293,7 +293,9 @@ Section CODEC.
                                | _ => existsb (fun kc => match assoc (fst kc) ps with Some _ => true | None => false end) decl
                                       || existsb (fun kv => match assoc (fst kv) m with Some _ => true | None => false end) ps
                                end in
-                  DRes (PO m) found None
+                  (* an exploded form object none of whose members is in the query is absent *)
+                  if explode && negb found && is_nil m then DRes PNil false None
+                  else DRes (PO m) found None
               end
           end
         else DRes PNil false (Some DOther)   (* deepObject: not modelled; other styles: invalid *)
